@@ -143,6 +143,8 @@ def run(ctx):
         cfgs = T.all_configs(windows=[2, 3], thresholds=[0.0])
         jobs = [(c, 3, 3) for c in cfgs] + [(c, 2, 5) for c in cfgs]
         jobs += [(c, 2, 6, True) for c in cfgs if c["scoring_method"] == "euclidean_dist"]
+        # options otherwise only varied in the thorough tier, at a small depth: reduction 'max', window 1
+        jobs += [(c, 2, 4) for c in T.all_configs(windows=[1, 2], thresholds=[0.0], reductions=("max",))]
         jobs += [(c, 3, 3, "diag") for c in cfgs if c["scoring_method"] == "iou"] + [(c, 2, 5, "diag") for c in cfgs if c["scoring_method"] == "iou"]
         ctx.bounds = {"K3_frames": 3, "K2_frames": 5, "K2_frames_fast_scenario": 6, "diag_scenario": "K3x3, K2x5 frames (IoU configs)", "configs": len(cfgs)}
     else:
